@@ -1066,6 +1066,7 @@ def _split_one(raw, L, fs, adts):
     fl = []
     for i, f in enumerate(fs):
         nl = S.new_local(f["ty"], user=bool(name))
+        raw["locals"][nl]["mut"] = bool(raw["locals"][L].get("mut", True))   # a field of an immutable binding is immutable
         fl.append(nl)
         if name:
             raw["debug"].append({"name": "%s.%s" % (name, f["name"]), "pl": P(nl), "arg": None})
@@ -1162,3 +1163,80 @@ def _split_one(raw, L, fs, adts):
             nb = S.new_block([assign(P(fl[i]), use(cp({"l": post_dest[0], "p": [fproj[i]]})), sp) for i in range(len(fs))], goto(t["t"], sp))
             t["t"] = nb
     return raw, fl
+
+
+def forward_local_refs(raw):
+    """After closures have been spliced in, a captured `&mut x` is a temporary `r = &mut x` used only as `*r`: replace
+    `(*r).p` by `x.p` and drop the closure values that nothing uses any more, so that `x` can be treated like any
+    other local (split_struct_locals).  Returns (raw', n) - raw is not modified."""
+    work = copy.deepcopy(raw)
+    n_done = 0
+    for _ in range(4):
+        # uses of every local: (kind, container) - kind 'def' (whole assignment / call dest), 'deref' (place starting
+        # with `*`), 'other'
+        uses = {}
+
+        def note(pl, kind):
+            uses.setdefault(pl["l"], []).append(kind)
+        for bb in work["blocks"]:
+            if bb["cleanup"]:
+                continue
+            for st in bb["stmts"]:
+                if st["k"] in ("live", "dead"):
+                    continue
+                if st["k"] == "assign":
+                    note(st["pl"], "def" if not st["pl"]["p"] else ("deref" if st["pl"]["p"][0] == "*" else "other"))
+                    _walk_places(st["rv"], lambda c, k, p, ctx: note(p, "deref" if p["p"] and p["p"][0] == "*" else "other"))
+                else:
+                    _walk_places(st, lambda c, k, p, ctx: note(p, "other"))
+            t = bb["term"]
+            if t is not None:
+                _walk_places(t, lambda c, k, p, ctx: note(p, "def" if ctx == "dest" and not p["p"] else ("deref" if p["p"] and p["p"][0] == "*" else "other")))
+        changed = False
+        # 1. closure values nothing reads
+        for bb in work["blocks"]:
+            keep = []
+            for st in bb["stmts"]:
+                if st["k"] == "assign" and not st["pl"]["p"] and st["rv"]["k"] == "agg" and st["rv"].get("ak") == "closure" \
+                        and uses.get(st["pl"]["l"], []).count("def") == len(uses.get(st["pl"]["l"], [])) and st["pl"]["l"] != 0:
+                    changed = True
+                    continue
+                keep.append(st)
+            bb["stmts"] = keep
+        if changed:
+            continue
+        # 2. r = &x / &mut x, r only dereferenced
+        fwd = {}
+        for bb in work["blocks"]:
+            if bb["cleanup"]:
+                continue
+            for st in bb["stmts"]:
+                if st["k"] == "assign" and not st["pl"]["p"] and st["rv"]["k"] == "ref" and "*" not in st["rv"]["pl"]["p"]:
+                    r = st["pl"]["l"]
+                    us = uses.get(r, [])
+                    if us.count("def") == 1 and all(u in ("def", "deref") for u in us) and "deref" in us and r != st["rv"]["pl"]["l"] \
+                            and not any(isinstance(x, str) and x.startswith("[") for x in st["rv"]["pl"]["p"]):
+                        fwd[r] = st["rv"]["pl"]
+        if not fwd:
+            break
+        for bb in work["blocks"]:
+            keep = []
+            for st in bb["stmts"]:
+                if st["k"] == "assign" and not st["pl"]["p"] and st["pl"]["l"] in fwd and st["rv"]["k"] == "ref":
+                    continue
+                if st["k"] in ("live", "dead") and st.get("l") in fwd:
+                    continue
+                keep.append(st)
+            bb["stmts"] = keep
+
+        def rew(c, k, p, ctx):
+            if p["l"] in fwd and p["p"] and p["p"][0] == "*":
+                tgt = fwd[p["l"]]
+                p["l"] = tgt["l"]
+                p["p"] = list(tgt["p"]) + p["p"][1:]
+        for bb in work["blocks"]:
+            _walk_places(bb["stmts"], rew)
+            if bb["term"] is not None:
+                _walk_places(bb["term"], rew)
+        n_done += len(fwd)
+    return work, n_done
